@@ -1,7 +1,7 @@
 (** C06 - the entry diff reports exactly the differing keys, once each, in order.
     Statements only; proofs are in DiffSpec.v and DiffK.v. *)
 From Coq Require Import List NArith ZArith Bool Sorting.Sorted.
-From Mast Require Import Prim Key Tree KeyOrder Codec Store Diff World Erase Build Spec Canon Links Level Inv Hist Reload DiffSpec DiffK.
+From Mast Require Import WorldInv Prim Key Tree KeyOrder Codec Store Diff World Erase Build Spec Canon Links Level Inv Hist Reload DiffSpec DiffK.
 Import ListNotations.
 
 Section GENERIC.
@@ -59,13 +59,22 @@ Theorem C06_diff : forall s kind bf (mo mn : kmast) lo ln,
       (fun r => filter (is_entry key val) r = sdiff key val kcmp bytes_eqb lo ln).
 Proof. exact k_diff_entries. Qed.
 
+(** In histories: for every reachable world (any number of trees and stores, persists, reloads) the
+    four diff interfaces between any two trees that live over one store observe the
+    merge-difference of their abstract contents ([astep2]: ODiff / ODiffCur = all of it, ODiffStop n =
+    its first n+1 events, ODiffFail n = failure iff it has more than n events); in particular the
+    hypotheses of C06_diff hold for every such pair. *)
+Theorem C06_in_histories : forall ops w a,
+  winv2 w a -> conds w a ops ->
+  map (fun x => pobs (fst x)) (run w ops) = arun2 a ops /\ winv2 (wrun w ops) (awrun2 a ops).
+Proof. exact history_refines2. Qed.
+
+
 (** the callback and cursor interfaces: World.step derives all of DiffIter, DiffIter with an early
     stop (firstn), DiffIter with a failing callback, and StartDiff/NextEntry from this one event
     list; the correspondence check compares each with the implementation.
-    PARTIAL: the history theorem that every pair of trees of a world satisfies the hypotheses
-    (canon and consistently named hash links) is proved for histories of one tree over one store
-    (Reload.cycles_ok) and for persist-free histories of many trees (Hist.history_invariant), not yet
-    for arbitrary worlds with several stores. *)
+    PARTIAL: a diff between trees living over DIFFERENT stores needs "one node per name" across
+    the two stores (hash collision freeness), which stays a hypothesis (Pfun). *)
 
 (** non-vacuity: a persisted version and its modified descendant (shared hash links are skipped),
     evaluated in the history model the correspondence check runs *)
@@ -85,3 +94,4 @@ Print Assumptions C06_ascending_once.
 Print Assumptions C06_entries_only.
 Print Assumptions C06_names_are_functional.
 Print Assumptions C06_diff.
+Print Assumptions C06_in_histories.
